@@ -7,9 +7,22 @@ open Nfl
 
 def lkOf (w : Nat) : Nat := match tabOf w with | some t => t.lk | none => 0
 
-def tablesFor (w cm k : Nat) : Option (Row × NttTables) := do
-  let r ← rowOf w cm
-  pure (r, initTables w (lkOf w) r k)
+initialize tabCache : IO.Ref (List ((Nat × Nat × Nat) × NttTables)) ← IO.mkRef []
+
+/-- tables of `core::initialize` for (limb, row, degree), memoised (last 3 configurations) -/
+def tablesFor (w cm k : Nat) : IO (Option (Row × NttTables)) := do
+  match rowOf w cm with
+  | none => pure none
+  | some r =>
+    let c ← tabCache.get
+    match c.find? (·.1 == (w, cm, k)) with
+    | some (_, t) => pure (some (r, t))
+    | none =>
+      let t := initTables w (lkOf w) r k
+      tabCache.set (((w, cm, k), t) :: c.take 2)
+      pure (some (r, t))
+
+def liftOpt {α} (o : Option α) : OptionT IO α := OptionT.mk (pure o)
 
 def ints (l : List Nat) : List Int := l.map Int.ofNat
 
@@ -36,13 +49,13 @@ def nttHandlers : List (String × Handler) := [
   -- forward transform: model equality; spec = canonical range and (n ≤ 256) the value of the polynomial
   -- at φ^(2·bitrev(r)+1), evaluated directly
   ("nttfwd", {
-    run := fun a => do
-      let (w, cm, k, xs) ← splitPoly a
-      let (r, t) ← tablesFor w cm k
+    run := fun a => OptionT.run do
+      let (w, cm, k, xs) ← liftOpt (splitPoly a)
+      let (r, t) ← OptionT.mk (tablesFor w cm k)
       pure { model := ints (nttPowPhi w r.p k t xs), specOk := true, cls := clsPoly r.p xs },
-    spec := fun a impl => do
-      let (w, cm, k, xs) ← splitPoly a
-      let r ← rowOf w cm
+    spec := fun a impl => OptionT.run do
+      let (w, cm, k, xs) ← liftOpt (splitPoly a)
+      let r ← liftOpt (rowOf w cm)
       let canon := allLt r.p impl && impl.length == xs.length
       if k ≤ 8 then
         let phi := phiOracle w r k
@@ -50,31 +63,31 @@ def nttHandlers : List (String × Handler) := [
         pure (canon && impl == ints want)
       else pure canon }),
   ("nttinv", {
-    run := fun a => do
-      let (w, cm, k, xs) ← splitPoly a
-      let (r, t) ← tablesFor w cm k
+    run := fun a => OptionT.run do
+      let (w, cm, k, xs) ← liftOpt (splitPoly a)
+      let (r, t) ← OptionT.mk (tablesFor w cm k)
       pure { model := ints (invnttPowInvphi w r.p k t xs), specOk := true, cls := clsPoly r.p xs },
-    spec := fun a impl => do
-      let (w, cm, _, xs) ← splitPoly a
-      let r ← rowOf w cm
+    spec := fun a impl => OptionT.run do
+      let (w, cm, _, xs) ← liftOpt (splitPoly a)
+      let r ← liftOpt (rowOf w cm)
       pure (allLt r.p impl && impl.length == xs.length) }),
   -- inv(fwd(a)) : spec = identity
   ("roundtrip", {
-    run := fun a => do
-      let (w, cm, k, xs) ← splitPoly a
-      let (r, t) ← tablesFor w cm k
+    run := fun a => OptionT.run do
+      let (w, cm, k, xs) ← liftOpt (splitPoly a)
+      let (r, t) ← OptionT.mk (tablesFor w cm k)
       pure { model := ints (invnttPowInvphi w r.p k t (nttPowPhi w r.p k t xs)), specOk := true, cls := clsPoly r.p xs },
-    spec := fun a impl => do
-      let (_, _, _, xs) ← splitPoly a
+    spec := fun a impl => OptionT.run do
+      let (_, _, _, xs) ← liftOpt (splitPoly a)
       pure (impl == ints xs) }),
   -- fwd(inv(y)) : spec = identity
   ("roundtrip2", {
-    run := fun a => do
-      let (w, cm, k, xs) ← splitPoly a
-      let (r, t) ← tablesFor w cm k
+    run := fun a => OptionT.run do
+      let (w, cm, k, xs) ← liftOpt (splitPoly a)
+      let (r, t) ← OptionT.mk (tablesFor w cm k)
       pure { model := ints (nttPowPhi w r.p k t (invnttPowInvphi w r.p k t xs)), specOk := true, cls := clsPoly r.p xs },
-    spec := fun a impl => do
-      let (_, _, _, xs) ← splitPoly a
+    spec := fun a impl => OptionT.run do
+      let (_, _, _, xs) ← liftOpt (splitPoly a)
       pure (impl == ints xs) })
 ]
 
@@ -87,48 +100,48 @@ def splitPoly2 (args : List Int) : Option (Nat × Nat × Nat × List Nat × List
     if xs.length = 2 * n then some (w.toNat, cm.toNat, k.toNat, xs.take n, xs.drop n) else none
   | _ => none
 
-def mulOracleLimit : Nat := 11   -- schoolbook oracle for n ≤ 2048
+def mulOracleLimit : Nat := 10   -- schoolbook oracle for n ≤ 1024
 
 def nttHandlers2 : List (String × Handler) := [
   -- inv( fwd(a) ⊙ fwd(b) ), ⊙ = mulmod : spec = schoolbook negacyclic product
   ("mulntt", {
-    run := fun a => do
-      let (w, cm, k, xs, ys) ← splitPoly2 a
-      let (r, t) ← tablesFor w cm k
+    run := fun a => OptionT.run do
+      let (w, cm, k, xs, ys) ← liftOpt (splitPoly2 a)
+      let (r, t) ← OptionT.mk (tablesFor w cm k)
       let fa := nttPowPhi w r.p k t xs
       let fb := nttPowPhi w r.p k t ys
       let prod := Spec.pointwise (mulmod w r.p r.pn) fa fb
       pure { model := ints (invnttPowInvphi w r.p k t prod), specOk := true, cls := clsPoly r.p xs ++ "*" ++ clsPoly r.p ys },
-    spec := fun a impl => do
-      let (w, cm, k, xs, ys) ← splitPoly2 a
-      let r ← rowOf w cm
+    spec := fun a impl => OptionT.run do
+      let (w, cm, k, xs, ys) ← liftOpt (splitPoly2 a)
+      let r ← liftOpt (rowOf w cm)
       if k ≤ mulOracleLimit then pure (impl == ints (Spec.negacyclicNat r.p xs ys))
       else pure (allLt r.p impl) }),
   -- same with the Shoup product: fwd(a) ⊙ fwd(b) via compute_shoup(fwd(b))
   ("mulnttshoup", {
-    run := fun a => do
-      let (w, cm, k, xs, ys) ← splitPoly2 a
-      let (r, t) ← tablesFor w cm k
+    run := fun a => OptionT.run do
+      let (w, cm, k, xs, ys) ← liftOpt (splitPoly2 a)
+      let (r, t) ← OptionT.mk (tablesFor w cm k)
       let fa := nttPowPhi w r.p k t xs
       let fb := nttPowPhi w r.p k t ys
       let fb' := fb.map (computeShoup w r.p)
       let prod := mulShoupList w r.p fa fb fb'
       pure { model := ints (invnttPowInvphi w r.p k t prod), specOk := true, cls := clsPoly r.p xs ++ "*" ++ clsPoly r.p ys },
-    spec := fun a impl => do
-      let (w, cm, k, xs, ys) ← splitPoly2 a
-      let r ← rowOf w cm
+    spec := fun a impl => OptionT.run do
+      let (w, cm, k, xs, ys) ← liftOpt (splitPoly2 a)
+      let r ← liftOpt (rowOf w cm)
       if k ≤ mulOracleLimit then pure (impl == ints (Spec.negacyclicNat r.p xs ys))
       else pure (allLt r.p impl) }),
   -- fwd(a+b) = fwd(a)+fwd(b): line carries a, b, result fwd(a+b); spec compares with model fwd(a) ⊕ fwd(b)
   ("nttlin", {
-    run := fun a => do
-      let (w, cm, k, xs, ys) ← splitPoly2 a
-      let (r, t) ← tablesFor w cm k
+    run := fun a => OptionT.run do
+      let (w, cm, k, xs, ys) ← liftOpt (splitPoly2 a)
+      let (r, t) ← OptionT.mk (tablesFor w cm k)
       let s := Spec.pointwise (addmod w r.p) xs ys
       pure { model := ints (nttPowPhi w r.p k t s), specOk := true, cls := clsPoly r.p xs ++ "+" ++ clsPoly r.p ys },
-    spec := fun a impl => do
-      let (w, cm, k, xs, ys) ← splitPoly2 a
-      let (r, t) ← tablesFor w cm k
+    spec := fun a impl => OptionT.run do
+      let (w, cm, k, xs, ys) ← liftOpt (splitPoly2 a)
+      let (r, t) ← OptionT.mk (tablesFor w cm k)
       let fa := nttPowPhi w r.p k t xs
       let fb := nttPowPhi w r.p k t ys
       pure (impl == ints (Spec.pointwise (fun x y => (x + y) % r.p) fa fb)) })
@@ -139,23 +152,23 @@ def nttHandlers2 : List (String × Handler) := [
 def tabHandlers : List (String × Handler) := [
   ("tab", {
     run := fun a => match a with
-      | [which, w, cm, k] => do
-        let (r, t) ← tablesFor w.toNat cm.toNat k.toNat
+      | [which, w, cm, k] => OptionT.run do
+        let (r, t) ← OptionT.mk (tablesFor w.toNat cm.toNat k.toNat)
         let l := match which.toNat with
           | 0 => t.phis | 1 => t.shoupphis | 2 => t.invphis | 3 => t.shoupinvphis
           | 4 => t.omegas | 5 => t.shoupomegas | 6 => t.invomegas | _ => t.shoupinvomegas
         pure { model := ints l, specOk := true, cls := s!"which={which}:k={k}" }
-      | _ => none,
+      | _ => pure none,
     spec := fun a impl => match a with
-      | [which, w, cm, k] => do
-        let r ← rowOf w.toNat cm.toNat
+      | [which, w, cm, k] => OptionT.run do
+        let r ← liftOpt (rowOf w.toNat cm.toNat)
         -- spec for phis: φ^i with φ^(2^k) ≡ -1 ; others: range only
         if which.toNat = 0 then
           let phi := phiOracle w.toNat r k.toNat
           let okRoot := Spec.powModN phi (2 ^ k.toNat) r.p == (r.p - 1) % r.p
           pure (okRoot && impl == ints ((List.range (2 ^ k.toNat)).map (fun i => Spec.powModN phi i r.p)))
         else pure (impl.all (fun v => 0 ≤ v && v < 2 ^ w.toNat))
-      | _ => none })
+      | _ => pure none })
 ]
 
 end Driver
